@@ -73,6 +73,10 @@ MUTANTS = [
      "        x_off, y_off = self.sky2pix(translate(ra, dec, a, pa - 90))", "C16-R5"),
     ("minor axis corrected with the sine", "AegeanTools/wcs_helpers.py",
      "        sy *= abs(np.cos(defect))", "        sy *= abs(np.sin(defect))", "C16-R7"),
+    ("direction from a one-argument arctangent (seed C16d)",
+     "AegeanTools/wcs_helpers.py",
+     "np.degrees(np.arctan2((y_off - y), (x_off - x)))",
+     "np.degrees(np.arctan((y_off - y) / (x_off - x)))", "C16-R8"),
 ]
 TWINS = [
     ("explicit conversion factor", "AegeanTools/wcs_helpers.py",
@@ -138,6 +142,7 @@ def run(ctx):
     # ---------------------------------------------------------------- R5
     r5_deps(ctx, ci)
     r7_defect(ctx, prog, ci)
+    r8_quadrant(ctx, prog)
     from .. import precision
     precision.rule(
         ctx, prog, "C16-R6",
@@ -291,3 +296,40 @@ def r7_defect(ctx, prog, ci):
                   "is not isotropic" % found,
                   node=ups[0] if ups else fi.node)
     ctx.floor("C16-R7", n, 2, "ellipse transforms")
+
+
+def r8_quadrant(ctx, prog):
+    ctx.rule("C16-R8", "angles are taken with the two-argument arctangent: "
+             "in wcs_helpers and angle_tools no direction is computed as "
+             "arctan(dy / dx) -- the quotient forgets the quadrant, so "
+             "vectors pointing into the other half plane come back rotated "
+             "by 180 degrees")
+    n = 0
+    for q, fi in sorted(prog.functions.items()):
+        if not (fi.module.endswith("wcs_helpers") or
+                fi.module.endswith("angle_tools")):
+            continue
+        mod = prog.modules[fi.module]
+        for c in walk_no_nested(fi.node):
+            if not isinstance(c, ast.Call):
+                continue
+            d = prog.dotted(mod, c.func) if isinstance(
+                c.func, ast.Attribute) else prog.resolve_name(
+                    mod, norm(c.func))
+            if d in ("numpy.arctan2", "math.atan2"):
+                n += 1
+            if d in ("numpy.arctan", "math.atan") and c.args:
+                n += 1
+                a = c.args[0]
+                quot = isinstance(a, ast.BinOp) and isinstance(a.op, ast.Div)
+                if isinstance(a, ast.Name):
+                    from .c08 import _resolve_local
+                    r = _resolve_local(fi.node, a)
+                    quot = isinstance(r, ast.BinOp) and \
+                        isinstance(r.op, ast.Div)
+                ctx.check("C16-R8", fi, "one-argument arctangent " +
+                          norm(c, 60), not quot,
+                          "%s takes the arctangent of a quotient: the "
+                          "quadrant of (dx, dy) is lost" % norm(c, 60),
+                          node=c)
+    ctx.floor("C16-R8", n, 5, "arctangent calls in the geometry modules")
